@@ -30,7 +30,7 @@ var Check = &vrt.Check{
 	ID:    "C16",
 	Level: "exploration",
 	Rule: "each execution is one handshake of a real slave Session against the reference master issuing ';PQ: <challenge>': PRNG challenges (8 digits, or 1..64 printable/Latin-1 characters with inner " +
-		"spaces), passwords of any bytes without CR, 0..4 auxiliary addresses x {password known, none, callback error}, callback absent / failing for the primary address; " +
+		"spaces; fixed challenges of 65..70000 characters around the 4096-byte and 64 KiB line lengths), passwords of any bytes without CR, 0..4 auxiliary addresses x {password known, none, callback error}, callback absent / failing for the primary address; " +
 		"non-trivial = a ;PR line was produced and compared; distinct = distinct (challenge, password, aux configuration) tuples",
 	Assumptions: []string{
 		"challenges are non-empty, contain no CR/LF/NUL and no leading or trailing blanks (the session's line reader trims them)",
@@ -367,6 +367,19 @@ func run(c vrt.Case) vrt.Obs {
 			{challenge: "12345678", primary: "pWnocallback", primMode: 2},
 			{challenge: "12345678", primary: "pWcallbackerr", primMode: 1, aux: []auxSpec{{addr: "AUX0", pw: "pWauxone"}}},
 			{challenge: "12345678", primary: ""},
+		}
+		// long challenges: nothing bounds the length of the remote's line; the boundaries are those of a 4096-byte line buffer
+		// (";PQ: " + 4091 characters) and of the 64 KiB mark
+		for _, n := range []int{65, 200, 1000, 4090, 4091, 4092, 4093, 4200, 9000, 65531, 70000} {
+			b := make([]byte, n)
+			for i := range b {
+				b[i] = byte('0' + (i*7+i/10+n)%10)
+			}
+			sc := scen{challenge: string(b), primary: "pWlongline"}
+			if n%2 == 0 {
+				sc.aux = []auxSpec{{addr: "AUX0", pw: "pWauxlong"}}
+			}
+			fixed = append(fixed, sc)
 		}
 		// responses with leading zeros / small values are rare: search a few challenges that produce them
 		for i, found := 0, 0; i < 2000000 && found < 6; i++ {
